@@ -52,7 +52,7 @@ class Abstraction:
             self.sweeps[tag] += 1
             return self.U(v)
 
-        def extract(solver=solver):
+        def extract(*a, solver=solver, **k):
             v = [zx.Z(zx.to_real(x)) for x in val_of(solver.values)]
             arr = np.empty((NS, 1), dtype=object)
             for i in range(NS):
